@@ -4,6 +4,7 @@ import (
 	"fmt"
 	"reflect"
 	"strconv"
+	"strings"
 
 	"github.com/goplus/xgo/ast"
 	"github.com/goplus/xgo/token"
@@ -206,6 +207,12 @@ func LayoutElems(n ast.Node) (elems []Elem, ok bool, why string) {
 				continue
 			}
 			elems = append(elems, Elem{Start: p, Stop: p + num(a[1]), Tok: true, Exact: true, What: a[0]})
+		case "tokIfUnset":
+			p, _ := intField(n, a[0])
+			g, _ := intField(n, a[2])
+			if g == 0 {
+				elems = append(elems, Elem{Start: p, Stop: p + num(a[1]), Tok: true, Exact: true, What: a[0]})
+			}
 		case "tokStr":
 			p, fok := intField(n, a[0])
 			if !fok {
@@ -268,4 +275,98 @@ func LayoutElems(n ast.Node) (elems []Elem, ok bool, why string) {
 		}
 	}
 	return elems, true, ""
+}
+
+// PosFieldSpec is the parsed form of one PosFields entry.
+type PosFieldSpec struct {
+	Texts    []string // alternatives
+	TokField string   // @G
+	EqPos    bool
+	EqEnd    bool
+	TokStart bool
+	Skip     bool
+	Unless   string
+}
+
+var posFieldSpecs = map[string]PosFieldSpec{}
+
+func init() {
+	for key, v := range PosFields {
+		var sp PosFieldSpec
+		if i := strings.Index(v, " unless "); i >= 0 {
+			sp.Unless = strings.TrimSpace(v[i+8:])
+			v = strings.TrimSpace(v[:i])
+		}
+		switch {
+		case v == "=pos":
+			sp.EqPos = true
+		case v == "=end":
+			sp.EqEnd = true
+		case v == "tokstart":
+			sp.TokStart = true
+		case strings.HasPrefix(v, "skip"):
+			sp.Skip = true
+		case strings.HasPrefix(v, "@"):
+			sp.TokField = v[1:]
+		default:
+			for _, alt := range strings.Split(v, "|") {
+				alt = strings.TrimSpace(alt)
+				if t, err := strconv.Unquote(alt); err == nil {
+					sp.Texts = append(sp.Texts, t)
+				}
+			}
+		}
+		posFieldSpecs[key] = sp
+	}
+}
+
+// PosFieldValue is one set token.Pos field of a node with its reviewed spec.
+type PosFieldValue struct {
+	Name string
+	Pos  token.Pos
+	Spec PosFieldSpec
+	Want []string // expected spellings (resolved @G)
+}
+
+// PosFieldsOf returns the valid (non-NoPos) token.Pos fields of n with their specs.
+func PosFieldsOf(n ast.Node) []PosFieldValue {
+	kind := KindName(n)
+	v := reflect.ValueOf(n)
+	if v.Kind() != reflect.Ptr || v.IsNil() {
+		return nil
+	}
+	s := v.Elem()
+	st := s.Type()
+	var res []PosFieldValue
+	for i := 0; i < st.NumField(); i++ {
+		f := st.Field(i)
+		if !f.IsExported() || f.Type != tokPosType {
+			continue
+		}
+		p := token.Pos(s.Field(i).Int())
+		if !p.IsValid() {
+			continue
+		}
+		sp, ok := posFieldSpecs[kind+"."+f.Name]
+		if !ok {
+			continue
+		}
+		if sp.Unless != "" {
+			if b := s.FieldByName(sp.Unless); b.IsValid() && b.Kind() == reflect.Bool && b.Bool() {
+				continue
+			}
+		}
+		pv := PosFieldValue{Name: f.Name, Pos: p, Spec: sp, Want: sp.Texts}
+		if sp.TokField != "" {
+			if tf := s.FieldByName(sp.TokField); tf.IsValid() && tf.Type() == tokTokType {
+				t := token.Token(tf.Int())
+				if t == token.ILLEGAL {
+					continue
+				}
+				pv.Want = []string{t.String()}
+			}
+		}
+		res = append(res, pv)
+	}
+	return res
 }
